@@ -192,7 +192,7 @@ def wait_tag(now, a0, a1, a2, v0, v1, v2, k):
 def wait(now: int, a0: int, a1: int, a2: int, v0: int, v1: int, v2: int, k: int) -> bool:
     """
     pre: 0 <= now <= 4 and 0 <= a0 <= now and 0 <= a1 <= now and 0 <= a2 <= now
-    pre: 0 <= v0 <= 3 and 0 <= v1 <= 3 and 0 <= v2 <= 3 and 0 <= k <= 3 and pinned_now(now)
+    pre: 0 <= v0 <= 3 and 0 <= v1 <= 3 and 0 <= v2 <= 3 and 0 <= k <= 3 and pinned_now(now, k, a2, v2)
     post: _
     """
     t = wait_tag(now, a0, a1, a2, v0, v1, v2, k)
@@ -200,8 +200,12 @@ def wait(now: int, a0: int, a1: int, a2: int, v0: int, v1: int, v2: int, k: int)
     return wit.verdict(t)
 
 
-def pinned_now(now):
-    return PIN.get('now') is None or now == PIN['now']
+def pinned_now(now, k, a2, v2):
+    if PIN.get('now') is not None and now != PIN['now']:
+        return False
+    if PIN.get('k') is not None and k != PIN['k']:
+        return False
+    return PIN.get('k') != 2 or (a2 == 0 and v2 == 0)      # the third predecessor does not exist when k = 2
 
 
 def warmup():
@@ -212,5 +216,5 @@ def shards(tier, prop):
     from vk import lemmas
     return [{'kind': 'py', 'fn': 's1', 'cond_timeout': 300, 'name': 'smt:Task._wait_for_transfer+do_work'},
             {'fn': 'fpa', 'cond_timeout': 200}, {'fn': 'fpa', 'cond_timeout': 40, 'twin': True}] + lemmas.jobs(['L3'], tier) + \
-           [{'fn': 'wait', 'pin': {'now': n, 'bw': b}, 'cond_timeout': 200} for (n, b) in ((2, 5), (3, 1), (4, 2))] + \
+           [{'fn': 'wait', 'pin': {'now': n, 'bw': b, 'k': k}, 'cond_timeout': 300} for (n, b, k) in ((2, 5, 3), (3, 1, 2), (4, 2, 2))] + \
            [{'fn': 'wait', 'pin': {'now': 3, 'bw': 5}, 'cond_timeout': 40, 'twin': True}]
